@@ -1,0 +1,15 @@
+//go:build verif
+
+// Contracts for package utils added for C13 (block rewards): the textual scaling of a validator power.
+// Comment-only file, read by /verif/govc.
+
+package utils
+
+// padZero(s): s (a decimal integer text without ".") with its leading zeros trimmed and 18 zeros appended.
+// PadZero goes through strings.Split/TrimLeft/Repeat/Join, which the engine does not model: its result is
+// ASSUMED to be this function of the input (T-STR). The arithmetic reading of the text is stated where it is used
+// (axiom in app/verif_contracts_rewards.go).
+//@ ghost func padZero(s string) string
+//@ assume func PadZero
+//@   modifies nothing
+//@   ensures result == padZero(s)
